@@ -678,6 +678,7 @@ def lu_factor(matrix_a, b):
     # LUP decomposition
     mp, p = matrix_pivot(matrix_a)
     m_l, m_u = lu_decomposition(mp)
+    b = matrix_multiply(p, b)  # P A x = P b
 
     # Solve the system of linear equations
     for i in range(dim):
